@@ -69,6 +69,124 @@ func selChain(e ast.Expr) []string {
 
 var sharedMaps = map[string]bool{"packages": true, "Schemas": true, "Packages": true}
 
+// package-level variables of the file set being scanned (set by scanPackageVars)
+var (
+	pkgVars     = map[string]bool{}
+	pkgVarSpecs = map[*ast.ValueSpec]bool{}
+)
+
+func typeString(e ast.Expr) string {
+	switch t := e.(type) {
+	case nil:
+		return ""
+	case *ast.MapType:
+		return "map"
+	case *ast.ArrayType:
+		return "slice"
+	case *ast.StarExpr:
+		return "*" + typeString(t.X)
+	case *ast.FuncType:
+		return "func"
+	case *ast.InterfaceType:
+		return "interface"
+	case *ast.CompositeLit:
+		return typeString(t.Type)
+	case *ast.CallExpr:
+		return "call:" + strings.Join(selChain(t.Fun), ".")
+	case *ast.UnaryExpr:
+		return "&" + typeString(t.X)
+	}
+	return strings.Join(selChain(e), ".")
+}
+
+// scanPackage lists the package-level variables of a directory (name:type-or-initialiser, blank
+// identifiers skipped) and, per function, the writes to them.
+func scanPackage(repo, dir string) (vars []string, writers []string, err error) {
+	matches, err := filepath.Glob(filepath.Join(repo, dir, "*.go"))
+	if err != nil {
+		return nil, nil, err
+	}
+	sort.Strings(matches)
+	var files []*ast.File
+	pkgVars = map[string]bool{}
+	pkgVarSpecs = map[*ast.ValueSpec]bool{}
+	for _, m := range matches {
+		if strings.HasSuffix(m, "_test.go") || strings.Contains(filepath.Base(m), "verifhook") {
+			continue
+		}
+		_, f, err := gen.ParseFile(m)
+		if err != nil {
+			return nil, nil, err
+		}
+		files = append(files, f)
+		for _, d := range f.Decls {
+			gd, ok := d.(*ast.GenDecl)
+			if !ok || gd.Tok != token.VAR {
+				continue
+			}
+			for _, sp := range gd.Specs {
+				vs := sp.(*ast.ValueSpec)
+				for i, n := range vs.Names {
+					if n.Name == "_" {
+						continue
+					}
+					ty := typeString(vs.Type)
+					if ty == "" && i < len(vs.Values) {
+						ty = typeString(vs.Values[i])
+					}
+					vars = append(vars, n.Name+":"+ty)
+					pkgVars[n.Name] = true
+					pkgVarSpecs[vs] = true
+				}
+			}
+		}
+	}
+	for _, f := range files {
+		for _, d := range f.Decls {
+			fd, ok := d.(*ast.FuncDecl)
+			if !ok {
+				continue
+			}
+			for _, t := range tokens(fd, map[string]bool{}) {
+				if strings.HasPrefix(t, "setvar:") || (strings.HasPrefix(t, "write:") && pkgVars[strings.TrimPrefix(t, "write:")]) {
+					writers = append(writers, fd.Name.Name+":"+t)
+				}
+			}
+		}
+	}
+	sort.Strings(vars)
+	sort.Strings(writers)
+	pkgVars = map[string]bool{}
+	pkgVarSpecs = map[*ast.ValueSpec]bool{}
+	return vars, writers, nil
+}
+
+func structFields(f *ast.File, name string) []string {
+	var fields []string
+	for _, d := range f.Decls {
+		gd, ok := d.(*ast.GenDecl)
+		if !ok {
+			continue
+		}
+		for _, sp := range gd.Specs {
+			ts, ok := sp.(*ast.TypeSpec)
+			if !ok || ts.Name.Name != name {
+				continue
+			}
+			st, ok := ts.Type.(*ast.StructType)
+			if !ok {
+				continue
+			}
+			for _, fl := range st.Fields.List {
+				for _, n := range fl.Names {
+					fields = append(fields, n.Name+":"+typeString(fl.Type))
+				}
+			}
+		}
+	}
+	return fields
+}
+
 func tokens(fd *ast.FuncDecl, methods map[string]bool) []string {
 	_, recv := recvName(fd)
 	var toks []string
@@ -151,11 +269,21 @@ func tokens(fd *ast.FuncDecl, methods map[string]bool) []string {
 			}
 		case *ast.IndexExpr:
 			c := selChain(x.X)
-			if len(c) >= 2 && sharedMaps[c[len(c)-1]] {
+			// a shared map by name, any indexed field of the receiver, or an indexed package-level variable
+			if (len(c) >= 2 && sharedMaps[c[len(c)-1]]) || (len(c) == 2 && c[0] == recv && recv != "") || (len(c) == 1 && pkgVars[c[0]]) {
 				if writes[x] {
 					toks = append(toks, "write:"+c[len(c)-1])
 				} else {
 					toks = append(toks, "read:"+c[len(c)-1])
+				}
+			}
+		case *ast.Ident:
+			if writes[x] && pkgVars[x.Name] {
+				// an identifier the parser could not resolve inside this file is package-level (declared in another file)
+				if x.Obj == nil {
+					toks = append(toks, "setvar:"+x.Name)
+				} else if vs, ok := x.Obj.Decl.(*ast.ValueSpec); ok && pkgVarSpecs[vs] {
+					toks = append(toks, "setvar:"+x.Name)
 				}
 			}
 		case *ast.SelectorExpr:
@@ -195,37 +323,11 @@ func genConc(repo string) (string, error) {
 	if err != nil {
 		return "", err
 	}
+	fields := structFields(f, "SchemaCache")
 	mutexField := ""
-	var fields []string
-	for _, d := range f.Decls {
-		gd, ok := d.(*ast.GenDecl)
-		if !ok {
-			continue
-		}
-		for _, sp := range gd.Specs {
-			ts, ok := sp.(*ast.TypeSpec)
-			if !ok || ts.Name.Name != "SchemaCache" {
-				continue
-			}
-			st, ok := ts.Type.(*ast.StructType)
-			if !ok {
-				continue
-			}
-			for _, fl := range st.Fields.List {
-				typ := strings.Join(selChain(fl.Type), ".")
-				if se, ok := fl.Type.(*ast.StarExpr); ok {
-					typ = "*" + strings.Join(selChain(se.X), ".")
-				}
-				if _, ok := fl.Type.(*ast.MapType); ok {
-					typ = "map"
-				}
-				for _, n := range fl.Names {
-					fields = append(fields, n.Name+":"+typ)
-					if typ == "sync.Mutex" || typ == "sync.RWMutex" {
-						mutexField = n.Name + ":" + typ
-					}
-				}
-			}
+	for _, fl := range fields {
+		if strings.HasSuffix(fl, ":sync.Mutex") || strings.HasSuffix(fl, ":sync.RWMutex") {
+			mutexField = fl
 		}
 	}
 	fmt.Fprintf(&sb, "Definition cache_fields : list string := %s.\n", coqList(fields))
@@ -324,7 +426,8 @@ func genConc(repo string) (string, error) {
 			}
 			fns = append(fns, fn{name: fd.Name.Name, exported: ast.IsExported(fd.Name.Name), toks: tokens(fd, hm)})
 		}
-		fmt.Fprintf(&sb, "(* %s: methods of *%s *)\n", src.path, src.typ)
+		fmt.Fprintf(&sb, "(* %s: fields and methods of *%s *)\n", src.path, src.typ)
+		fmt.Fprintf(&sb, "Definition %s_fields : list string := %s.\n", strings.TrimSuffix(src.def, "_methods"), coqList(structFields(h, src.typ)))
 		emit(src.def, fns)
 		var vars []string
 		for _, d := range h.Decls {
@@ -342,6 +445,19 @@ func genConc(repo string) (string, error) {
 		}
 		sort.Strings(vars)
 		fmt.Fprintf(&sb, "Definition %s_package_vars : list string := %s.\n", strings.TrimSuffix(src.def, "_methods"), coqList(vars))
+	}
+
+	// ---- package-level variables of the packages on the encode/decode path, and who writes them
+	for _, pk := range []struct{ def, dir string }{
+		{"codec_pkg", "internal/codec"}, {"reflect_pkg", "lib/j5reflect"}, {"schema_pkg", "lib/j5schema"},
+	} {
+		vars, writers, err := scanPackage(repo, pk.dir)
+		if err != nil {
+			return "", err
+		}
+		fmt.Fprintf(&sb, "(* %s: package-level variables (name:type or initialiser) and the functions that assign to them *)\n", pk.dir)
+		fmt.Fprintf(&sb, "Definition %s_vars : list string := %s.\n", pk.def, coqList(vars))
+		fmt.Fprintf(&sb, "Definition %s_var_writers : list string := %s.\n", pk.def, coqList(writers))
 	}
 
 	// ---- internal/codec: every function that obtains the root through the reflector
